@@ -192,7 +192,14 @@ std::string crash_label(const std::string& err, int status) {
         size_t b = p + 15, e = err.find('\n', b);
         std::string k = err.substr(b, std::min<size_t>(e - b, 60));
         std::string o;
-        for (char c : k) {
+        for (size_t i = 0; i < k.size(); ++i) {
+            char c = k[i];
+            if (c == '0' && i + 1 < k.size() && k[i + 1] == 'x') { // drop addresses entirely
+                i += 2;
+                while (i < k.size() && isxdigit((unsigned char)k[i])) ++i;
+                --i;
+                continue;
+            }
             if (c >= '0' && c <= '9') continue;
             o += (c == ' ') ? '-' : c;
         }
